@@ -27,6 +27,8 @@ REPAIR = Profile(new=8, edit_refresh=8, push=5, pop=6, delete=2, hide=2, repair=
                  gmerge=1, undo=1, commit=1, uncommit=1, inspect=1)
 COMMIT = Profile(new=10, edit_refresh=8, push=6, pop=6, commit=12, uncommit=10, float=3, sink=3, undo=3, redo=2,
                  gcommit=3, delete=2, hide=2, goto=2, repair=1, invalid=1)
+DIRTY = Profile(new=8, edit_refresh=6, dirty_edit=14, push=10, pop=10, goto=6, float=5, sink=5, delete=4, hide=2,
+                unhide=1, commit=2, undo=4, redo=2, reset=1, rename=1, clean=1, repair=1)
 BIG = Profile(new=30, edit_refresh=6, push=6, pop=10, hide=8, unhide=3, delete=2, float=3, sink=3, undo=3, redo=1,
               rename=2)
 
@@ -109,7 +111,8 @@ class Chooser:
         if self.pending:
             return self.pending.pop(0)
         A, U, H = view["A"], view["U"], view["H"]
-        if not view["unmerged"] and view["wt"] != view["branch_tree"] and view["branch_tree"] is not None:
+        if not view["unmerged"] and view["wt"] != view["branch_tree"] and view["branch_tree"] is not None \
+                and "dirty_edit" not in self.p.w:
             # stale / dirty work tree (after hide of applied patches, --spill, ...): resync most
             # of the time; index != work tree states are outside the single-tree model
             k = rng.random()
@@ -130,7 +133,8 @@ class Chooser:
         if npatches < 3:
             kinds = [(k, (w * 4 if k == "new" else w)) for k, w in kinds]
         if view["unmerged"]:
-            kinds = [(k, w) for k, w in kinds if k not in ("edit_refresh", "gcommit", "gamend", "gmerge", "greset")]
+            kinds = [(k, w) for k, w in kinds if k not in ("edit_refresh", "dirty_edit", "gcommit", "gamend", "gmerge",
+                                                            "greset")]
         total = sum(w for _, w in kinds)
         x = rng.random() * total
         for kind, w in kinds:
@@ -143,6 +147,8 @@ class Chooser:
             return {"c": "new", "name": self.fresh_name(view), "meta": self.next_meta()}
         if kind == "edit_refresh":
             self.pending = [{"c": "refresh"}]
+            return self.edit_cmd(view)
+        if kind == "dirty_edit":
             return self.edit_cmd(view)
         if kind == "__unused__":
             ncells = len(view["wt"])
@@ -165,7 +171,8 @@ class Chooser:
                 c["flags"].append("all")
             else:
                 c["ranges"] = self.range_args(U, view)
-            for f, pr in (("reverse", 0.1), ("noapply", 0.08), ("set-tree", 0.05), ("merged", 0.1), ("keep", 0.1)):
+            keep_pr = 0.6 if "dirty_edit" in self.p.w else 0.1
+            for f, pr in (("reverse", 0.1), ("noapply", 0.08), ("set-tree", 0.05), ("merged", 0.1), ("keep", keep_pr)):
                 if rng.random() < pr:
                     c["flags"].append(f)
             if "noapply" in c["flags"]:
@@ -186,18 +193,22 @@ class Chooser:
                 c["flags"].append("all")
             else:
                 c["ranges"] = self.range_args(A, view)
-            if rng.random() < 0.1:
+            if rng.random() < (0.6 if "dirty_edit" in self.p.w else 0.1):
                 c["flags"].append("keep")
             return c
         if kind == "goto":
             vis = A + U
             loc = rng.choice(vis) if vis and rng.random() < 0.85 else rng.choice(NAMES + ["{base}", "@", "~1"])
             c = {"c": "goto", "loc": loc, "flags": []}
+            if "dirty_edit" in self.p.w and rng.random() < 0.6:
+                c["flags"].append("keep")
             if rng.random() < 0.1:
                 c["flags"].append("merged")
             return c
         if kind == "float":
             c = {"c": "float", "ranges": self.range_args(A + U, view), "flags": []}
+            if "dirty_edit" in self.p.w and rng.random() < 0.6:
+                c["flags"].append("keep")
             if rng.random() < 0.15:
                 c["flags"].append("noapply")
             return c
